@@ -257,10 +257,10 @@ pub fn def(ctx: &Ctx) -> PropDef {
     let t = ctx.tier;
     let mut subs: Vec<Box<dyn SubCheck>> = Vec::new();
     for part in 0..4 {
-        subs.push(PSub::boxed(format!("affinity/{}", part), t.pick(5000, 250_000), || (map_sel(true), word(), word(), word()).prop_map(|(map, a, b, c)| TripleCase { map, a, b, c }).boxed(), check_triple));
+        subs.push(PSub::boxed(format!("affinity/{}", part), t.pick(15_000, 1_000_000), || (map_sel(true), word(), word(), word()).prop_map(|(map, a, b, c)| TripleCase { map, a, b, c }).boxed(), check_triple));
         subs.push(PSub::boxed(
             format!("differentials/{}", part),
-            t.pick(8000, 600_000),
+            t.pick(25_000, 2_000_000),
             || {
                 let diff = prop_oneof![
                     4 => (0u32..64).prop_map(|i| 1u64 << i),
@@ -273,7 +273,7 @@ pub fn def(ctx: &Ctx) -> PropDef {
             check_pair,
         ));
     }
-    subs.push(PSub::boxed("fold-joint-affinity", t.pick(5000, 250_000), || ([word(), word(), word()], [word(), word(), word()]).prop_map(|(d, t)| JointCase { d, t }).boxed(), check_joint));
+    subs.push(PSub::boxed("fold-joint-affinity", t.pick(20_000, 1_000_000), || ([word(), word(), word()], [word(), word(), word()]).prop_map(|(d, t)| JointCase { d, t }).boxed(), check_joint));
     subs.push(PSub::boxed("rank/generated", t.pick(200, 5000), || map_sel(true).boxed(), check_rank));
     subs.push(ESub::boxed(
         "rank/fixed",
